@@ -1,104 +1,86 @@
 package stk
 
 import (
-	"bytes"
 	"os"
+	"strconv"
 	"strings"
 	"testing"
 
 	"verif/harness"
 )
 
-// The application logs to fd 1 and (through loggers created at start-up) to whatever os.Stdout is at
-// that moment, while the testing package captures os.Stdout once inside m.Run(). So: silence fd 1,
-// let the testing package capture the saved real stdout, and point os.Stdout back at the silenced
-// fd 1 while a test body runs (quiet()).
-var appStdout, testStdout *os.File
-
-func TestMain(m *testing.M) {
-	harness.SilenceStdout()
-	appStdout = os.Stdout
-	testStdout = harness.Out()
-	os.Stdout = testStdout
-	code := m.Run()
-	harness.RemoveScratch()
-	os.Exit(code)
-}
-
-func quiet() func() {
-	harness.SilenceStdout()
-	os.Stdout = appStdout
-	return func() { os.Stdout = testStdout }
-}
-
-func printable(b []byte) string {
-	var sb strings.Builder
-	for _, c := range b {
-		if c >= 32 && c < 127 {
-			sb.WriteByte(c)
-		} else {
-			sb.WriteString("\\x")
-			sb.WriteString("0123456789abcdef"[c>>4 : c>>4+1])
-			sb.WriteString("0123456789abcdef"[c&15 : c&15+1])
-		}
-	}
-	return sb.String()
-}
-
-func dumpDiff(t *testing.T, before, after []harness.KV) {
-	m := map[string][]byte{}
-	for _, kv := range before {
-		m[string(kv.K)] = kv.V
-	}
-	seen := map[string]bool{}
-	for _, kv := range after {
-		seen[string(kv.K)] = true
-		old, ok := m[string(kv.K)]
-		if !ok {
-			t.Logf("   + %s = %s", printable(kv.K), printable(kv.V))
-		} else if !bytes.Equal(old, kv.V) {
-			t.Logf("   ~ %s = %s  (was %s)", printable(kv.K), printable(kv.V), printable(old))
-		}
-	}
-	for _, kv := range before {
-		if !seen[string(kv.K)] {
-			t.Logf("   - %s", printable(kv.K))
-		}
-	}
-}
-
+// TestExplore: STK_EXPLORE=<scenario id substring> [STK_AFTER=n] prints the block-by-block state diff.
 func TestExplore(t *testing.T) {
-	if os.Getenv("STK_EXPLORE") == "" {
+	sel := os.Getenv("STK_EXPLORE")
+	if sel == "" {
 		t.Skip()
 	}
 	defer quiet()()
-	w := harness.NewWorld("explore", 4, 3)
-	x, err := harness.StartRun(w)
-	if err != nil {
-		t.Fatal(err)
-	}
-	defer x.Close()
-	prev := x.R.Dump()
-	for h := 1; h <= 14; h++ {
-		b := harness.BlockSpec{}
-		if h == 2 {
-			b.Txs = append(b.Txs, Delegate(w.Users[0], OLT(1000000), "d1"))
+	for _, sc := range Scenarios() {
+		if !strings.Contains(ScenarioID(sc), sel) {
+			continue
 		}
-		if h == 3 {
-			b.Txs = append(b.Txs, Stake(w.Vals[3], w.Vals[3].Stake, WholeOLT(600000), "s1"))
+		after := sc.After
+		if s := os.Getenv("STK_AFTER"); s != "" {
+			after, _ = strconv.Atoi(s)
 		}
-		res, err := x.Block(b)
+		w := sc.World()
+		x, err := harness.StartRun(w)
 		if err != nil {
-			t.Fatalf("block %d: %v", h, err)
+			t.Fatal(err)
 		}
-		t.Logf("h=%d txs=%v updates=%v", h, res.Txs, res.ValUpdates)
-		for i, r := range res.Txs {
-			if r.Code != 0 {
-				t.Logf("   tx %d log %s; check %v %s", i, r.Log, x.Checks[len(x.Checks)-1][i], x.Checks[len(x.Checks)-1][i].Log)
+		defer x.Close()
+		var blocks []harness.BlockSpec
+		if sc.Prefix != nil {
+			blocks = append(blocks, sc.Prefix(w)...)
+		}
+		blocks = append(blocks, harness.BlockSpec{Txs: []*harness.TxSpec{sc.Target(w)}})
+		blocks = append(blocks, make([]harness.BlockSpec, after)...)
+		prev := x.R.Dump()
+		for i, b := range blocks {
+			res, err := x.Block(b)
+			if err != nil {
+				t.Fatalf("block %d: %v", i+1, err)
 			}
+			var ups []string
+			for _, u := range res.ValUpdates {
+				v := w.Vals[0]
+				for _, c := range w.Vals {
+					if string(c.Val.TM.PubKey().Bytes()[5:]) == string(u.PubKey.Data) {
+						v = c
+					}
+				}
+				ups = append(ups, v.Name+"="+strconv.FormatInt(u.Power, 10))
+			}
+			t.Logf("h=%d txs=%v updates=%v dead=%v", i+1, res.Txs, ups, x.R.Dead)
+			for j, r := range res.Txs {
+				if r.Code != 0 {
+					t.Logf("   tx %d log %s", j, r.Log)
+				}
+			}
+			cur := x.R.Dump()
+			var fp, fc []harness.KV
+			keep := func(k []byte) bool {
+				s := string(k)
+				for _, p := range []string{"es__svb", "rwz_", "rwcum_", "f_", "delegRwz_total"} {
+					if strings.HasPrefix(s, p) {
+						return os.Getenv("STK_ALLKEYS") != ""
+					}
+				}
+				return true
+			}
+			for _, kv := range prev {
+				if keep(kv.K) {
+					fp = append(fp, kv)
+				}
+			}
+			for _, kv := range cur {
+				if keep(kv.K) {
+					fc = append(fc, kv)
+				}
+			}
+			dumpDiff(t, fp, fc)
+			prev = cur
 		}
-		cur := x.R.Dump()
-		dumpDiff(t, prev, cur)
-		prev = cur
 	}
 }
